@@ -252,3 +252,61 @@ class Optimize(Contract):
                     for key, val in d.items if key == 'N') if any(key == 'N' for key, _ in d.items) else True)
         else:
             yield ('C03.result.type', False)
+
+
+@register
+class OptimProblemInitContract(Contract):
+    """OptimProblem.__init__ (C07 "no entry is NaN"; discharges the callee contract `common.OptimProblemInit` that every set-up contract uses):
+    stores its arguments unchanged; refuses (AssertionError) exactly when c, l, u or b contains a NaN (NaN = missing value of the model, A3:
+    a sum is NaN iff a summand is); merges periods only when a period length is given (then __make_periodic__ is called with the given arguments)."""
+    qualname = 'optimization:OptimProblem.__init__'
+    prefix = 'C07.opinit'
+    properties = ('C07', 'C13')
+
+    def cases(self):
+        return [dict(rows=r, periodic=p) for r in (True, False) for p in (False, True)]
+
+    def harness(self, H, case):
+        n, m = H.int('n_vars'), H.int('n_rows')
+        H.assume(z3.And(n >= 0, m >= 0))
+
+        def vec(nm, k):
+            nul = H.fun(nm + '_isnan', z3.IntSort(), z3.BoolSort())
+            val = H.fun(nm, z3.IntSort(), z3.RealSort())
+            return Arr(k, lambda i: sym.mk_opt(nul(lift(i)), val(lift(i)))), nul
+        (c, cn), (l, ln), (u, un) = vec('c', n), vec('l', n), vec('u', n)
+        b, bn = vec('b', m) if case['rows'] else (None, None)
+        A = Obj('csr_matrix', __token__='A') if case['rows'] else None
+        ct = Obj('str', __token__='cType') if case['rows'] else None
+        mapping, tg, rec = Obj('DataFrame', __token__='mapping'), Obj('Timegrid', __token__='grid'), Obj('list', __token__='map_nodal_restr')
+        per = H.str('period') if case['periodic'] else None
+        dur = H.str('duration') if case['periodic'] else None
+        self_obj = Obj('OptimProblem')
+        args = [c, l, u, A, b, ct, mapping, tg, per, dur, rec]
+        return dict(self_obj=self_obj, args=args, n=n, m=m, nans=[(cn, n), (ln, n), (un, n)] + ([(bn, m)] if case['rows'] else []), per=per, dur=dur, tg=tg)
+
+    def callees(self, case, ctx=None):
+        def mp(I, self_obj, args, kwargs):
+            ctx['periodic_call'] = (self_obj, list(args), dict(kwargs))
+            return None
+        return {'optimization:OptimProblem.__make_periodic__': mp}
+
+    def post(self, H, case, outcome, I, ctx):
+        i = z3.Int('i')
+        any_nan = z3.Or(*[z3.Exists([i], z3.And(i >= 0, i < k, f(i))) for f, k in ctx['nans']])
+        if outcome[0] == 'raise':
+            yield ('C07.opinit.refuses_only_nan', z3.And(outcome[1] == 'AssertionError', any_nan))
+            return
+        if outcome[0] != 'return':
+            yield ('C07.opinit.modelled', Havoc(outcome[1]))
+            return
+        so, a = ctx['self_obj'], ctx['args']
+        yield ('C07.opinit.accepts_only_nan_free_vectors', z3.Not(any_nan))
+        names = ['c', 'l', 'u', 'A', 'b', 'cType', 'mapping', None, None, None, 'map_nodal_restr']
+        yield ('C07.opinit.stores_its_arguments_unchanged', all(nm is None or (so.has(nm) and so.get(nm) is v) for nm, v in zip(names, a)))
+        pc = ctx.get('periodic_call')
+        if case['periodic']:
+            yield ('C13.opinit.periods_merged_with_the_given_frequencies_and_grid', pc is not None and pc[0] is so and
+                   pc[2].get('freq_period') is ctx['per'] and pc[2].get('freq_duration') is ctx['dur'] and pc[2].get('timegrid') is ctx['tg'])
+        else:
+            yield ('C13.opinit.no_merge_without_period_length', pc is None)
